@@ -18,7 +18,7 @@ RULE = ("pairs of G-sim trace directories (identical / perturbed: events removed
         "size >= 2. Distinct = hash of both file sets + selection.")
 ASSUMPTIONS = ["well-formed regime (hv/wf.py); iteration reference hv/ref/load.py (C12)", "short names use the repository's shorten_name (trusted helper)",
                "iterations / ranks passed are valid for the traces (the API raises ValueError otherwise)"]
-PLAN = {"quick": {"shards": 16, "cases": 320, "timeout": 900}, "thorough": {"shards": 16, "cases": 5000, "timeout": 3400}}
+PLAN = {"quick": {"shards": 16, "cases": 480, "timeout": 900}, "thorough": {"shards": 16, "cases": 5000, "timeout": 3400}}
 FLOORS = {"quick": {"distinct_nontrivial": 60, "names_judged": 3000, "proper_rank_subsets": 25, "self_comparisons": 25, "short_name_calls": 60, "identical_labels": 60, "ops_diff_called_first": 80,
                     "class_added": 200, "class_deleted": 200, "class_increased": 100, "class_decreased": 100, "class_unchanged": 500},
           "thorough": {"distinct_nontrivial": 1200, "names_judged": 100000, "proper_rank_subsets": 500, "self_comparisons": 800, "short_name_calls": 1200, "identical_labels": 1000, "ops_diff_called_first": 1400,
